@@ -888,4 +888,158 @@ theorem setText_texts (items : List Item) (p : Nat) (txt : Str) :
     | zero => simp
     | succ p => simp [ih]
 
+/-! ## identities: the committed ids in the list stay pairwise distinct -/
+
+/-- the committed line numbers carried by the list elements, in list order -/
+def idsOf (items : List Item) : List Nat := items.filterMap Item.id
+
+/-- no two list elements are the same committed object -/
+def IdsDistinct (items : List Item) : Prop := (idsOf items).Nodup
+
+/-- the new list holds a sub-sequence of the old list's committed objects (none is
+duplicated, none appears from nowhere, their order is kept) -/
+def IdsSub (new old : List Item) : Prop := (idsOf new).Sublist (idsOf old)
+
+theorem idsOf_committed (t : T) : idsOf (committedItems t) = List.range t.texts.length := by
+  have h := committedItems_ids t
+  unfold idsOf
+  have h2 : (committedItems t).filterMap Item.id = ((committedItems t).map Item.id).filterMap id := by
+    rw [List.filterMap_map]; rfl
+  rw [h2, h, List.filterMap_map]
+  simp
+
+theorem idsDistinct_committed (t : T) : IdsDistinct (committedItems t) := by
+  unfold IdsDistinct; rw [idsOf_committed]; exact List.nodup_range
+
+theorem idsOf_insert_fresh (l : List Item) (j : Nat) (x : Str) :
+    idsOf (l.take j ++ fresh x :: l.drop j) = idsOf l := by
+  unfold idsOf
+  rw [List.filterMap_append, List.filterMap_cons]
+  show List.filterMap Item.id (List.take j l) ++ List.filterMap Item.id (List.drop j l) = _
+  rw [← List.filterMap_append, List.take_append_drop]
+
+theorem idsSub_takeDrop (l : List Item) (j : Nat) (x : Str) : IdsSub (l.take j ++ fresh x :: l.drop j) l := by
+  unfold IdsSub; rw [idsOf_insert_fresh]; exact List.Sublist.refl _
+
+theorem idsSub_pyInsert (l : List Item) (k : Int) (x : Str) : IdsSub (pyInsert l k (fresh x)) l := by
+  rw [pyInsert_eq]; exact idsSub_takeDrop l _ x
+
+theorem idsSub_append (l : List Item) (x : Str) : IdsSub (l ++ [fresh x]) l := by
+  unfold IdsSub idsOf
+  rw [List.filterMap_append]
+  show (List.filterMap Item.id l ++ []).Sublist _
+  rw [List.append_nil]; exact List.Sublist.refl _
+
+theorem idsSub_of_sublist {new old : List Item} (h : new.Sublist old) : IdsSub new old :=
+  h.filterMap _
+
+theorem idsSub_pyPop {l l' : List Item} {k : Int} (h : pyPop l k = some l') : IdsSub l' l := by
+  unfold pyPop at h
+  dsimp only at h
+  split at h <;> split at h <;> cases h <;> exact idsSub_of_sublist (List.eraseIdx_sublist _ _)
+
+theorem idsSub_eraseAll (l : List Item) (idxs : List Nat) : IdsSub (eraseAll l idxs) l :=
+  idsSub_of_sublist (eraseAll_sublist l idxs)
+
+@[simp] theorem fresh_id (x : Str) : (fresh x).id = none := rfl
+
+theorem idsOf_insertAtMatches (after : Bool) (x : Str) (l : List Item) (row : List Bool) :
+    idsOf (insertAtMatches after (fresh x) l row) = idsOf l := by
+  unfold idsOf
+  induction l generalizing row with
+  | nil => simp [insertAtMatches]
+  | cons a as ih =>
+    cases row with
+    | nil => simp [insertAtMatches]
+    | cons b bs =>
+      have := ih bs
+      cases b <;> cases after <;> simp [insertAtMatches, List.filterMap_cons, this]
+
+theorem idsSub_insertAtMatches (after : Bool) (x : Str) (l : List Item) (row : List Bool) :
+    IdsSub (insertAtMatches after (fresh x) l row) l := by
+  unfold IdsSub; rw [idsOf_insertAtMatches]; exact List.Sublist.refl _
+
+theorem idsOf_setText (l : List Item) (p : Nat) (x : Str) : idsOf (setText l p x) = idsOf l := by
+  unfold idsOf setText
+  induction l generalizing p with
+  | nil => simp
+  | cons a as ih =>
+    cases p with
+    | zero => simp [List.filterMap_cons]
+    | succ p => simp [List.filterMap_cons, ih]
+
+theorem idsSub_setText (l : List Item) (p : Nat) (x : Str) : IdsSub (setText l p x) l := by
+  unfold IdsSub; rw [idsOf_setText]; exact List.Sublist.refl _
+
+/-- every step either re-commits (fresh identities `0..n-1`) or keeps a sub-sequence of the
+committed objects of the list -/
+theorem step_ids (s : S) (op : Op) :
+    (∃ t, (step s op).1.items = committedItems t) ∨ IdsSub (step s op).1.items s.items := by
+  cases op <;> unfold step <;> dsimp only
+  all_goals repeat' split
+  all_goals first
+    | exact .inr (List.Sublist.refl _)
+    | exact .inl ⟨_, rfl⟩
+    | (unfold autoCommit
+       split
+       · exact .inl ⟨_, rfl⟩
+       · first
+         | exact .inr (idsSub_pyInsert _ _ _)
+         | exact .inr (idsSub_append _ _)
+         | exact .inr (idsSub_pyPop ‹_›)
+         | exact .inr (idsSub_insertAtMatches _ _ _ _)
+         | exact .inr (idsSub_takeDrop _ _ _)
+         | exact .inr (idsSub_eraseAll _ _)
+         | exact .inr (idsSub_setText _ _ _))
+
+theorem step_idsDistinct (s : S) (op : Op) (h : IdsDistinct s.items) : IdsDistinct (step s op).1.items := by
+  rcases step_ids s op with ⟨t, ht⟩ | hs
+  · rw [ht]; exact idsDistinct_committed t
+  · exact List.Nodup.sublist hs h
+
+theorem run_idsDistinct (s : S) (ops : List Op) (h : IdsDistinct s.items) : IdsDistinct (run s ops).items := by
+  induction ops generalizing s with
+  | nil => exact h
+  | cons op ops ih => exact ih _ (step_idsDistinct s op h)
+
+/-- with distinct identities an object is at no more than one position -/
+theorem idsDistinct_unique {items : List Item} (hd : IdsDistinct items) {h p q : Nat}
+    (hp : (items[p]?).map Item.id = some (some h)) (hq : (items[q]?).map Item.id = some (some h)) :
+    p = q := by
+  unfold IdsDistinct idsOf at hd
+  induction items generalizing p q with
+  | nil => simp at hp
+  | cons a as ih =>
+    have hmem : ∀ r : Nat, (as[r]?).map Item.id = some (some h) → h ∈ as.filterMap Item.id := by
+      intro r hr
+      cases har : as[r]? with
+      | none => simp [har] at hr
+      | some it =>
+        simp [har] at hr
+        exact List.mem_filterMap.mpr ⟨it, List.mem_of_getElem? har, hr⟩
+    cases p with
+    | zero =>
+      cases q with
+      | zero => rfl
+      | succ q =>
+        simp at hp hq
+        have := hmem q (by simpa using hq)
+        rw [List.filterMap_cons, hp] at hd
+        exact absurd this (List.nodup_cons.mp hd).1
+    | succ p =>
+      cases q with
+      | zero =>
+        simp at hp hq
+        have := hmem p (by simpa using hp)
+        rw [List.filterMap_cons, hq] at hd
+        exact absurd this (List.nodup_cons.mp hd).1
+      | succ q =>
+        have hd' : (as.filterMap Item.id).Nodup := by
+          rw [List.filterMap_cons] at hd
+          split at hd
+          · exact hd
+          · exact (List.nodup_cons.mp hd).2
+        simp only [List.getElem?_cons_succ] at hp hq
+        rw [ih hd' hp hq]
+
 end Ccp.Edit
